@@ -2,7 +2,8 @@
 // @mode toks line run_toks
 //! mode `parse`: `parse <Kind:value:sl:sc:el:ec>…` → real `parse_gold` on exactly these tokens.
 //! mode `toks`: `toks <escaped text>` → token list of the real lexer in the same wire form.
-use crate::dump::{diags_str, dump_tree, parse_tok, tok_str, walk_both};
+use crate::analyzers_v2::doc_symbol_generator::DocumentSymbolGeneratorFromAst;
+use crate::dump::{diags_str, dump_tree, outline_str, parse_tok, tok_str, walk_both};
 use crate::lexer::GoldLexer;
 use crate::parser::parse_gold;
 use crate::wire::unescape;
@@ -19,7 +20,15 @@ pub fn run(words: &[&str]) -> String {
     let mut t = String::new();
     dump_tree(root.as_ast_node(), &mut t);
     let (nodes, views) = walk_both(root.as_ast_node());
-    format!("T={} D={} R={} V={}", t, diags_str(&diags), rest.len(), if views { "ok" } else { "mismatch" })
+    let outline = DocumentSymbolGeneratorFromAst::new().generate_symbols(root.as_ast_node());
+    format!(
+        "T={} D={} R={} V={} O={}",
+        t,
+        diags_str(&diags),
+        rest.len(),
+        if views { "ok" } else { "mismatch" },
+        outline_str(&outline)
+    )
 }
 
 pub fn run_toks(words: &[&str]) -> String {
